@@ -769,6 +769,10 @@ func c01Quals(spec string) gts.Props {
 		return gts.Props{{"gene", "g"}, {"pseudo", ""}, {"codon_start", "1"}, {"note", "x\ny"}, {"db_xref", "A:1", "B:2"}, {"translation", "MKV"}}
 	case "long":
 		return gts.Props{{"note", strings.Repeat("word ", 40) + "end"}, {"translation", strings.Repeat("MKVLAAGIT", 20)}}
+	case "after-translation":
+		return gts.Props{{"gene", "g"}, {"translation", "MKV"}, {"db_xref", "A:1", "B:2"}, {"note", "n1", "n2"}}
+	case "first-translation":
+		return gts.Props{{"translation", "MKVLA"}, {"note", "a", "b"}, {"db_xref", "X:1"}, {"pseudo", ""}}
 	case "empty-value":
 		return gts.Props{{"note", ""}}
 	case "none":
@@ -828,7 +832,7 @@ func init() {
 	register(&Check{ID: "C01", Level: "model_checking", Quick: 240 * time.Second, Thor: 40 * time.Minute,
 		Run: func(r *engine.Run) bool {
 			thorough := r.Tier == "thorough"
-			r.Rule = "write->read->compare->write on the real writer/scanner for: every string of <=3 symbols over {a,space,.,;,:,\",\\,newline,%} in each of 22 fields (one field varied at a time, and every pair of fields at three representative values each; every subset of 12 optional blocks of a record present; writable-domain predicate per field), long wrapping values, lists of 0..3 items, 0..2 references with every sub-field subset, every calendar date of 1900-2100 (quick) / 1-9999 (thorough), every residue count 0..130, feature tables of 0..3 features over a location menu x 9 qualifier shapes, the corpus, streams of 1..3 records, every program of <=2 (quick) / <=3 (thorough) edit operations from every seed (BFS, de-duplicated on the canonical record), and every history of <=3 registry events; distinct key = canonical record dump; non-trivial = record has >=1 feature or was reached by >=1 operation"
+			r.Rule = "write->read->compare->write on the real writer/scanner for: every string of <=3 symbols over {a,space,.,;,:,\",\\,newline,%} in each of 22 fields (one field varied at a time, and every pair of fields at three representative values each; every subset of 12 optional blocks of a record present; writable-domain predicate per field), long wrapping values, lists of 0..3 items, 0..2 references with every sub-field subset, every calendar date of 1900-2100 (quick) / 1-9999 (thorough), every residue count 0..130, feature tables of 0..3 features over a location menu x 11 qualifier shapes, the corpus, streams of 1..3 records, every program of <=2 (quick) / <=3 (thorough) edit operations from every seed (BFS, de-duplicated on the canonical record), and every history of <=3 registry events; distinct key = canonical record dump; non-trivial = record has >=1 feature or was reached by >=1 operation"
 			complete := true
 			eval := func(c c01Case, size int) {
 				r.Evals.Add(1)
@@ -924,7 +928,7 @@ func init() {
 				gts.Joined{gts.Range(1, 4), gts.Range(8, 12), gts.Point(20)}, gts.Complemented{Location: gts.Joined{gts.PartialRange(1, 4, gts.Partial5), gts.Range(8, 12)}},
 				gts.Ordered{gts.Point(1), gts.Complemented{Location: gts.Range(5, 9)}}, gts.Complemented{Location: gts.Point(7)},
 				gts.Joined{gts.Range(0, 3), gts.PartialRange(4, 6, gts.Partial3)}}
-			quals := []string{"quoted", "literal", "toggle", "multi-line", "multi-valued", "mixed", "long", "empty-value", "none"}
+			quals := []string{"quoted", "literal", "toggle", "multi-line", "multi-valued", "mixed", "long", "empty-value", "none", "after-translation", "first-translation"}
 			keys := []string{"source", "gene", "CDS", "misc_feature", "a_very_long_key"}
 			eval(c01Case{Kind: "table"}, 900) // empty table
 			for li, l := range locs {
